@@ -215,7 +215,7 @@ def run_driver(behaviours, wd, flavour="plain"):
     env = {"RELAY_WATCHDOG_S": "180"}
     if flavour == "asan":
         env.update({"RELAY_DATA_LIMIT_MB": "0", "UBSAN_OPTIONS": "print_stacktrace=1:halt_on_error=1",
-                    "ASAN_OPTIONS": "allocator_may_return_null=1:max_allocation_size_mb=48:detect_leaks=0:abort_on_error=0"})
+                    "ASAN_OPTIONS": "allocator_may_return_null=1:max_allocation_size_mb=16:detect_leaks=0:abort_on_error=0"})
     all_lines = []
     start, rounds = 0, 0
     while start < len(behaviours) and rounds < 12:
@@ -287,6 +287,10 @@ def run_and_validate(chk, behaviours, label, flavour="plain", hists=None):
     if events:
         chk.sample({"source": label, "script": behaviours[len(behaviours) // 2][:14], "first_events": events[:6]})
     report(chk, res, events, behaviours, label)
+    st = res.get("stats") or {}
+    if label != "replay" and nb >= 100 and not res.get("viol") and (st.get("bridges", 0) == 0 or st.get("tokens", 0) == 0 or st.get("finals", 0) == 0):
+        # nothing was ever bridged / relayed / finished: the clauses were vacuous on this trace (e.g. a server that answers nothing)
+        raise vlib.MachineryError("vacuous trace validation (%s): %s" % (label, json.dumps(st)))
     drift = None
     if hists is not None:
         drift = model_drift(hists, events)
@@ -325,22 +329,26 @@ def run(chk):
     rng = chk.rng
     hists, hists2 = model_check(chk, thorough)
     log("[gen] %d state-cover histories of the model, %d of its as-found variant" % (len(hists), len(hists2)))
-    k1, k2 = (2500, 2500) if not thorough else (len(hists), len(hists2))
-    # the longest as-found histories are the ones that run through the deviation; always keep them
+    k1, k2 = (1500, 1000) if not thorough else (12000, 8000)
+    # the longest as-found histories are the ones that run through the deviation; always keep a good share of them
     h1 = rng.sample(hists, min(len(hists), k1))
     h2s = sorted(hists2, key=len, reverse=True)
     h2 = h2s[: k2 // 2] + rng.sample(h2s[k2 // 2:], min(max(0, len(h2s) - k2 // 2), k2 // 2))
-    asan = chk.pid == "C26"
-    run_and_validate(chk, [hist_to_script(h, rng).done() for h in h1], "tlc-state-cover", hists=h1)
-    run_and_validate(chk, [hist_to_script(h, rng).done() for h in h2], "tlc-state-cover-as-found-variant")
-    run_and_validate(chk, transition_cover(hists + hists2, rng, 1500 if not thorough else 20000), "tlc-transition-cover")
-    run_and_validate(chk, random_behaviours(rng, 600 if not thorough else 8000), "random")
-    if asan:
-        # memory-safety clause: the sanitizer is a monitor on the same spec-generated executions
-        run_and_validate(chk, random_behaviours(rng, 250 if not thorough else 4000, garbage=True), "out-of-protocol-bytes", "plain")
-        run_and_validate(chk, [hist_to_script(h, rng).done() for h in rng.sample(h1 + h2, min(len(h1 + h2), 700 if not thorough else 6000))],
-                         "tlc-state-cover", "asan")
-        run_and_validate(chk, random_behaviours(rng, 200 if not thorough else 3000, garbage=True), "out-of-protocol-bytes", "asan")
+    if chk.pid == "C25":
+        run_and_validate(chk, [hist_to_script(h, rng).done() for h in h1], "tlc-state-cover", hists=h1)
+        run_and_validate(chk, [hist_to_script(h, rng).done() for h in h2], "tlc-state-cover-as-found-variant")
+        run_and_validate(chk, transition_cover(hists + hists2, rng, 800 if not thorough else 6000), "tlc-transition-cover")
+        run_and_validate(chk, random_behaviours(rng, 400 if not thorough else 4000), "random")
+    else:
+        # C26: same generated executions, plus byte streams outside the protocol; the memory-safety clause is monitored
+        # by running them under AddressSanitizer + UBSan as well
+        cover = [hist_to_script(h, rng).done() for h in h1[: len(h1) // 2] + h2[: len(h2) // 2]]
+        run_and_validate(chk, cover, "tlc-state-cover", hists=None)
+        run_and_validate(chk, transition_cover(hists + hists2, rng, 400 if not thorough else 4000), "tlc-transition-cover")
+        run_and_validate(chk, random_behaviours(rng, 250 if not thorough else 3000, garbage=True), "out-of-protocol-bytes")
+        sub = rng.sample(cover, min(len(cover), 500 if not thorough else 5000))
+        run_and_validate(chk, sub + random_behaviours(rng, 100 if not thorough else 2000), "tlc-state-cover+random", "asan")
+        run_and_validate(chk, random_behaviours(rng, 200 if not thorough else 2000, garbage=True), "out-of-protocol-bytes", "asan")
     chk.assumptions += [
         "one client step (one write or a disconnect) followed by the server running until idle is atomic: the server is single-threaded and has no timers; the driver executes the real EventLoop::run() one epoll batch at a time until nothing moves",
         "clients are ends of AF_UNIX socketpairs registered with the server by the statements of accept_new_clients() (or the guarded adopt_client hook when present); listen/accept itself is not exercised",
